@@ -440,7 +440,31 @@ C15_Saturated == AfterGw => \A i \in PL : ((i - 1) * 1000000 >= Ev.grw) => Ev.W[
 FirstSeen == LET k == CHOOSE k \in 1..Len(gwseen) : gwseen[k][1] = Ev.grw IN Trace[gwseen[k][2]]
 C15_SameLevel == AfterGw => /\ FirstSeen.W = Ev.W /\ FirstSeen.WMIN = Ev.WMIN /\ FirstSeen.PORGES = Ev.PORGES
                             /\ FirstSeen.WNOR = Ev.WNOR /\ FirstSeen.WRED = Ev.WRED
-C15_All == C15_Order /\ C15_FcLePv /\ C15_Threshold /\ C15_Saturated /\ C15_SameLevel
+\* explicit route (field capacity, wilting point and pore volume given in the soil file; header: Gen.fcBase / wpBase /
+\* pvBase per layer at 1e-9): the parameters in use are a FUNCTION OF THE LEVEL (init.go setFieldCapacityWithGW): layers
+\* entirely above the table carry the given field capacity, the layer that holds the table is interpolated between
+\* field capacity and pore volume by the position of the table in it, layers below carry the pore volume; wilting
+\* point and pore volume are the given values whatever the level.  Judged once the daily groundwater block has run
+\* (the level changed at least once).
+LayerOfTable(g) == (g \div 1000000) + 1
+FracOfTable(g) == g % 1000000
+HasBase == ix.gen > 0 /\ Has(Gen, "fcBase")
+GwBlockRan == Ev.old # Ev.grw \/ Len(gwseen) > 1
+C15_LevelFunction == (AfterGw /\ HasBase /\ GwBlockRan) => \A i \in PL :
+   LET k == LayerOfTable(Ev.grw)  f == FracOfTable(Ev.grw) IN
+   /\ Ev.WMIN[i] = Gen.wpBase[i] /\ Ev.PORGES[i] = Gen.pvBase[i]
+   /\ (i < k => Ev.W[i] = Gen.fcBase[i])
+   \* 32-bit integers: water contents at 1e-6, position of the table in the layer at 1e-3
+   /\ (i = k => LET w6 == Ev.W[i] \div 1000  pv6 == Gen.pvBase[i] \div 1000  fc6 == Gen.fcBase[i] \div 1000  f3 == f \div 1000
+                 IN Abs(w6 * 1000 - ((1000 - f3) * pv6 + f3 * fc6)) <= 3000 + (pv6 - fc6))
+   /\ (i > k => Ev.W[i] = Gen.pvBase[i])
+\* ... and before the first change of the level (Input, then Init at the level of the day before the start): the given
+\* values in every layer that lies above both the initial table of the soil / polygon file and the level at the start
+C15_ExplicitAtStart == (l > 1 /\ Ev.ev = "run.config" /\ HasBase) => \A i \in PL :
+   /\ Ev.WMIN[i] = Gen.wpBase[i] /\ Ev.PORGES[i] = Gen.pvBase[i]
+   /\ Ev.W[i] >= Gen.fcBase[i] /\ Ev.W[i] <= Gen.pvBase[i]
+   /\ (i * 1000000 + 500000 < Min(Ev.gw, Ev.grw) => Ev.W[i] = Gen.fcBase[i])
+C15_All == C15_LevelFunction /\ C15_ExplicitAtStart /\ C15_Order /\ C15_FcLePv /\ C15_Threshold /\ C15_Saturated /\ C15_SameLevel
 
 
 \* =============================================================================================
